@@ -225,6 +225,7 @@ func Seeded16(format string, d int) *world.Config {
 var bothFormats = []string{ref.FormatBinary, ref.FormatMarshaler}
 
 func runSingle(run *report.Run, check string, cfgs []*world.Config, mon func(*world.Config) explore.Monitor, ops func(*world.Config) []world.Op) {
+	blown := 0
 	for _, cfg := range cfgs {
 		if f := os.Getenv("VERIF_ONLY"); f != "" && !strings.Contains(cfg.Name, f) {
 			continue
@@ -240,11 +241,31 @@ func runSingle(run *report.Run, check string, cfgs []*world.Config, mon func(*wo
 			e.MaxStates = 80000
 		}
 		runExplorer(run, check, e)
+		if stopEarly(run, e, &blown) {
+			break
+		}
 		if run.Thorough() && len(run.Parts) > 40 {
 			// keep the evidence file readable: fold the per-configuration list
 			run.Extra["parts_folded"] = true
 		}
 	}
+}
+
+// stopEarly: a closure search (no depth bound) that runs into its state or depth cap *and* has violations to
+// report means the code under test no longer has the small closed state space these universes have on a
+// correct tree (a counter that drifts, sizes that no longer match contents): every further configuration would
+// run into its cap as well, for minutes each. After two such configurations the rest is skipped - the run
+// reports the violations it has and says so. Never taken without violations.
+func stopEarly(run *report.Run, e *explore.Explorer, blown *int) bool {
+	if e.MaxDepth == 0 && !e.Exhaustive && len(e.Findings) > 0 {
+		*blown++
+	}
+	if *blown >= 2 {
+		run.Exhaustive = false
+		run.Extra["remaining_configurations_skipped"] = "two closure searches ran into their caps with violations to report: the state space no longer closes under the code under test"
+		return true
+	}
+	return false
 }
 
 func stdOps(cfg *world.Config) []world.Op {
